@@ -158,6 +158,12 @@ fn target_by_class(class: u8, n: usize, at: usize, raw: i64, bytes: &[u8]) -> i6
     }
 }
 
+pub fn apply_all(muts: &[Mutation], bytes: &mut Vec<u8>) {
+    for m in muts {
+        apply(m, bytes);
+    }
+}
+
 fn apply(m: &Mutation, bytes: &mut Vec<u8>) {
     let n = bytes.len() / 8;
     if n == 0 {
